@@ -350,6 +350,25 @@ def g_lagdrop(rng, i, **kw):
         scripts[0].append("drop")
     return scen.Scn("lagdrop%d" % i, "B", "fut", cap, "fut", sf, sy, scripts, sched, limit=1500, tags=("lagdrop", "fut"))
 
+def g_viewfull(rng, i, **kw):
+    """a single-consumer view receiver on a full ring with a producer that keeps retrying: the slot is handed back
+    to the producer around the in-place destruction of the viewed value"""
+    fl = kw.get("fl") or rng.choice("MMB")
+    cap = rng.choice([1, 1, 2])
+    n = cap_n(cap)
+    scripts = {0: [], 1: ["intosingle"]}
+    val = 1
+    for _ in range(n):
+        scripts[0].append("send:%d" % val); val += 1
+    sched = ["1*"] + ["0*"] * n
+    k = rng.choice([3, 4, 6])
+    for _ in range(3 * k):
+        scripts[0].append("send:%d" % val); val += 1
+    scripts[1] += [rng.choice(["view", "view", "recv"]) for _ in range(k)]
+    scripts[0].append("drop"); scripts[1].append("drop")
+    sched += scen.sched_rand(rng, scripts, rng.choice([120, 300]))
+    return scen.Scn("viewfull%d" % i, fl, "plain", cap, "busy", 0, 0, scripts, sched, limit=2500, tags=("viewfull", "view"))
+
 def g_fut(rng, i, **kw):
     """sink tasks and stream tasks that await notifications"""
     fl = kw.get("fl") or rng.choice("BBM")
@@ -631,7 +650,7 @@ def g_solo(rng, i, **kw):
 
 GENS = {"seq": g_seq, "rand": g_rand, "pc": g_pc, "view": g_view, "teardown": g_teardown, "disc": g_disc,
         "norecv": g_norecv, "block": g_block, "fut": g_fut, "churn": g_churn, "quiesce": g_quiesce,
-        "addstream": g_addstream, "unsub": g_unsub, "handles": g_handles, "futseq": g_futseq, "solo": g_solo, "reclaim": g_reclaim, "lapped": g_lapped, "pinned": g_pinned, "norecv_churn": g_norecv_churn, "lastsend": g_lastsend, "lagdrop": g_lagdrop}
+        "addstream": g_addstream, "unsub": g_unsub, "handles": g_handles, "futseq": g_futseq, "solo": g_solo, "reclaim": g_reclaim, "lapped": g_lapped, "pinned": g_pinned, "norecv_churn": g_norecv_churn, "lastsend": g_lastsend, "lagdrop": g_lagdrop, "viewfull": g_viewfull}
 
 # ---------------------------------------------------------------- small scenarios for exhaustive schedules
 def smalls_ring():
@@ -649,7 +668,7 @@ PROPS = {
     "C02": {"gens": [("rand", 50, {}), ("pc", 100, {})], "small": smalls_ring(), "oracles": ["C02", "C01"]},
     "C03": {"gens": [("rand", 40, {}), ("pc", 110, {})], "small": smalls_ring(), "oracles": ["C03"]},
     "C04": {"gens": [("view", 90, {}), ("pc", 40, {"fl": "B"}), ("pinned", 30, {})], "small": smalls_ring()[:2], "oracles": ["C04", "C01"]},
-    "C05": {"gens": [("teardown", 110, {}), ("rand", 40, {})], "small": smalls_ring()[:2], "oracles": ["C05"]},
+    "C05": {"gens": [("teardown", 90, {}), ("viewfull", 30, {}), ("rand", 30, {})], "small": smalls_ring()[:2], "oracles": ["C05"]},
     "C07": {"gens": [("disc", 100, {}), ("lastsend", 40, {}), ("rand", 20, {})], "small": [], "oracles": ["C07"]},
     "C13": {"gens": [("norecv", 110, {}), ("norecv_churn", 24, {}), ("rand", 20, {})], "small": [], "oracles": ["C13"]},
     "C06": {"gens": [("quiesce", 150, {})], "small": [], "oracles": ["C06"]},
